@@ -14,7 +14,7 @@ from matched_markets.methodology.tbrmmdata import TBRMMData
 ID = 'C15'
 LEVEL = 'exploration'
 RULE = ('Engine A: (a) frames over G x T in {2x2, 3x2, 2x3 | + 3x3} with EVERY present/absent pattern of the G*T cells '
-        '(distinct integer values, plus a tied-means variant), ID dtype int/str, 3 row orders, no eligibility; (b) 3-geo '
+        '(distinct integer values, plus a tied-means variant), ID dtype int/str (+ object column of ints, mixed int/str object column, float, categorical), 3 row orders, no eligibility; (b) 3-geo '
         'frames with EVERY eligibility table over {absent + 7 row types}^3 (512), with and without an extra matrix geo '
         'that is not in the data (cx / ctx excludable, c_fixed / ct not excludable), and with a data geo missing; for '
         'every constructed object EVERY ordered subset of the assignable geos as geo_index and, for 2-geo subsets, '
@@ -44,6 +44,16 @@ def cases(tier, seed):
             for idt, order in (('int', 'id'), ('str', 'rev'), ('int', 'mix')) if G * T <= 6 else (('int', 'mix'),):
                 out.append({'G': G, 'T': T, 'mask': list(mask), 'ids': idt, 'order': order, 'elig': None, 'vals': 'distinct'})
     out.append({'G': 3, 'T': 3, 'mask': [1] * 9, 'ids': 'int', 'order': 'mix', 'elig': None, 'vals': 'tied'})
+    # ID column presentations: object column of ints, mixed int/str object column, float IDs, categorical
+    for idt in ('objint', 'mixed', 'float', 'category'):
+        for G, T in ((2, 2), (3, 2)):
+            for mask in itertools.product([0, 1], repeat=G * T):
+                if any(mask):
+                    out.append({'G': G, 'T': T, 'mask': list(mask), 'ids': idt, 'order': 'mix', 'elig': None, 'vals': 'distinct'})
+        out.append({'G': 3, 'T': 3, 'mask': [1] * 9, 'ids': idt, 'order': 'rev', 'elig': None, 'vals': 'tied'})
+        if idt != 'float':
+            for e in ({'0': [1, 1, 1], '1': [1, 0, 0], '2': [0, 1, 1]}, {'0': [0, 0, 1], '1': [1, 1, 0]}):
+                out.append({'G': 3, 'T': 2, 'mask': [1] * 6, 'ids': idt, 'order': 'id', 'elig': e, 'vals': 'distinct'})
     opts = [None] + [list(r) for r in relig.ROWS7]
     for rows in itertools.product(opts, repeat=3):
         if all(r is None for r in rows):
@@ -71,10 +81,19 @@ def run_case(case):
         rows = rows[::-1]
     elif case['order'] == 'mix':
         rows = rows[1::2] + rows[0::2]
-    df = pd.DataFrame({'date': pd.to_datetime([r[0] for r in rows]),
-                       'geo': [(r[1] if case['ids'] == 'int' else str(r[1])) for r in rows],
-                       'resp': [r[2] for r in rows]})
+    geo_col = [(str(r[1]) if case['ids'] == 'str' else r[1]) for r in rows]
+    if case['ids'] == 'objint':          # integers held in an object column (frame assembled from records / read with dtype=object)
+        geo_col = pd.Series(geo_col, dtype=object)
+    elif case['ids'] == 'mixed':         # object column mixing integers and strings (geo 0 as int, the others as str)
+        geo_col = pd.Series([(g if g == 0 else str(g)) for g in geo_col], dtype=object)
+    elif case['ids'] == 'float':         # integral floats are NOT the same label: 1.0 -> '1.0'
+        geo_col = [float(g) for g in geo_col]
+    elif case['ids'] == 'category':
+        geo_col = pd.Series([str(g) for g in geo_col]).astype('category')
+    df = pd.DataFrame({'date': pd.to_datetime([r[0] for r in rows]), 'geo': geo_col, 'resp': [r[2] for r in rows]})
     before = df.copy(deep=True)
+    if case['ids'] == 'float':
+        rows = [(r[0], float(r[1]), r[2]) for r in rows]
     dates, tab = rpanel.table(rows)
     mean = rpanel.means(tab)
     share = rpanel.shares(tab)
@@ -110,7 +129,8 @@ def run_case(case):
         add('input-frame-modified', 'the caller\'s frame changed')
     idx = list(d.df.index)
     if not all(isinstance(g, str) for g in idx):
-        add('ids-not-strings', 'row labels %r' % idx)
+        add('ids-not-strings', 'row labels %r (types %s)' % (idx, sorted({type(g).__name__ for g in idx})))
+        return {'viol': viol, 'nontrivial': True, 'outcome': 'ids-not-strings'}
     if sorted(map(str, idx)) != sorted(geos):
         add('row-set', 'rows %s, geos in input %s' % (idx, sorted(geos)))
         return {'viol': viol, 'nontrivial': True, 'outcome': 'row-set'}
